@@ -76,7 +76,11 @@ event -- and the state it reaches is compared with the engine's by the usual exa
 interleaved start / finish ticks: the recorded mtime is computed from the START tick).  The history goes on from the
 parallel state on the model side.  selfcheck: build_f from the same state accepts likewise, runs the same multiset of
 commands and reaches the same contents (confluence).  Counted: events, the largest number of commands running at once per
-build.  Pools (the console pool too) are kept out: they constrain the schedule in a way the model does not know.
+build.  POOLS (coq/Engine/HistParPoolDefs.v par_run_pool, theorems in Properties_C06par.v): in --par histories the graphs keep
+gen_graph's pools (half of them declare one or two pools of depth 1..3; 8% of the statements outside them use the console pool)
+and the p step carries the tables (`@<statement>.<pool>/..:<pool>.<depth>/..`, console = a pool of depth 1): par_run_pool must
+accept ninja's event order, i.e. besides the above no Start may find its pool full (#running of the pool = depth).  Counted:
+builds with pooled statements, builds in which a pool ran at its full depth; a python-side oracle checks the same limit.
 
 KEEP GOING (coq/Engine/HistFailKDefs.v buildFK, theorems in Properties_C05keepgoing.v; fault='k', second hook of props/c05.py):
 the failing build of a history carries 2-3 faults and runs with -j1 -k N, N in {0 (no limit), 1, 2, 3} (model step
@@ -169,10 +173,10 @@ def run_model(lines, chunk=None, mode='hist'):
     return res
 
 # ------------------------------------------------------------------ generation (inside the fragment)
-def strip_graph(g, rnd=None):
+def strip_graph(g, rnd=None, keep_pools=False):
     """what gen_graph adds regardless of the feature table and the model does not have"""
     for e in g.edges:
-        e.pool = ''            # the console pool (scheduling only)
+        if not keep_pools: e.pool = ''            # the console pool (scheduling only); kept for par_run_pool
     return g
 
 GARBAGE_BASE = 10 ** 9        # model contents written by failing commands: GARBAGE_BASE + 1000 * k + node
@@ -199,8 +203,9 @@ def gen_history(rnd, sid, outside=False, dry=0.0, fault=False, deps=False, par=F
     wf_reads = True
     if deps: feat['deps'] = 0.6; wf_reads = rnd.random() < 0.75
     if dyn: feat['dyndep'] = 1.0
+    if par: feat['pools'] = 0.5
     g = strip_graph(engine.gen_graph(rnd, rnd.randrange(3, 13) if par else (rnd.randrange(3, 11) if fault == 'k' else rnd.randrange(2, 10)), feat, wf_reads),
-                    rnd)
+                    rnd, keep_pools=bool(par))
     if deps: gcc_only(g, keep_depfile=(deps == 'depfile'))
     h = ec.Hist(sid, g)
     h.deps_mode = bool(deps); h.depfile_mode = (deps == 'depfile'); h.dyn_mode = bool(dyn); h.wf_reads = wf_reads; h.par_mode = bool(par)
@@ -601,7 +606,7 @@ class Map:
                     # the schedule the engine took: its start / finish events in the order they happened
                     evs = ['%s%d' % (ev[0][0], s.num[s.by_out0[ev[1]]]) for ev in s.trace[nb][1].events
                            if ev[0] in ('start', 'finish') and ev[1] in s.by_out0]
-                    S.append('p%s@%d:%s' % (t, st.opts.get('j', 1), '/'.join(evs) or '-'))
+                    S.append('p%s@%d:%s%s' % (t, st.opts.get('j', 1), '/'.join(evs) or '-', s.pool_field(g)))
                 else: S.append('b' + t)
             else:
                 raise ValueError('step kind %s is outside the model' % st.kind)
@@ -625,6 +630,13 @@ class Map:
         L = ','.join(str(ID[p]) for p in s.names if p not in mentioned) or '-'
         H = ';'.join('%d:%s' % (s.num[pos], j(e.hidden)) for pos, e in enumerate(g.edges) if e.hidden and (e.deps or e.depfile)) or '-'
         return 'N=%d E=%s L=%s H=%s S=%s' % (len(s.names), ';'.join(E) or '-', L, H, ','.join(S) or '-')
+    def pool_field(s, g):
+        """the pool tables of a p step (HistParPoolDefs): '' when no statement is in a pool"""
+        names = pool_names(g)
+        if not names: return ''
+        pid = {n: i for i, n in enumerate(names)}
+        return '@%s:%s' % ('/'.join('%d.%d' % (s.num[k], pid[e.pool]) for k, e in enumerate(g.edges) if e.pool and not e.phony) or '-',
+                           '/'.join('%d.%d' % (pid[n], pool_depth(g, n)) for n in names))
     def prev_edges(s, h, st):
         """the statements as they were before this manifest rewrite"""
         prev = h.g0
@@ -632,6 +644,9 @@ class Map:
             if x is st: break
             if x.kind == 'manifest': prev = x.g_after
         return prev.edges
+
+def pool_names(g): return sorted({e.pool for e in g.edges if e.pool and not e.phony})
+def pool_depth(g, n): return 1 if n == 'console' else g.pools.get(n, 0)
 
 def parse_model(out, m):
     """statement numbers of the model are translated back to positions; `raw` keeps the model's own order"""
@@ -785,6 +800,20 @@ def compare_build(h, m, st, b, mb, prev_ok_same, nip, cnt, prev=None, flags=None
             running += 1 if ev[0] == 'start' else -1; mx = max(mx, running)
         cnt['builds with at most %d command%s running at once' % (mx, '' if mx == 1 else 's')] += 1
         if mx >= 2: cnt['builds with at least two commands running at the same time'] += 1
+        if pool_names(g):
+            # the limit par_run_pool enforces, decided on ninja's events directly
+            pool_by_out0 = {e.out0: e.pool for e in g.edges if e.pool and not e.phony}
+            use = collections.Counter(); full = False; started = False
+            for ev in evs:
+                pn = pool_by_out0.get(ev[1])
+                if not pn: continue
+                d = pool_depth(g, pn); started = True
+                use[pn] += 1 if ev[0] == 'start' else -1
+                if d and use[pn] > d: bad.append(('pool', 'pool %s (depth %d): %d commands running after %s %s' % (pn, d, use[pn], ev[0], ev[1])))
+                if d and use[pn] == d: full = True
+            if started: cnt['builds with commands in pools'] += 1
+            if full: cnt['builds in which a pool ran at its full depth'] += 1
+            if full and mx >= 2: cnt['builds in which a pool ran at its full depth while 2+ commands ran'] += 1
         if mb['res'] not in ('done', 'refused'):
             cnt['schedules of the engine the model does not accept (%s)' % mb['res']] += 1
             x = evs[mb['acc']] if mb['acc'] is not None and mb['acc'] < len(evs) else None
